@@ -130,6 +130,32 @@ type c17case struct {
 	Off    int      `json:"off,omitempty"`
 	Val    int      `json:"val,omitempty"`
 	Prefix int      `json:"prefix,omitempty"` // CacheMarshal into a buffer with this capacity (0 = nil)
+	Wide   *c17wide `json:"wide,omitempty"`   // the tree is a wide aggregate built from this description (Tree is not stored)
+}
+
+// c17wide describes an aggregate with many direct children (sizes around the decoder's preallocation bound).
+type c17wide struct {
+	Typ    byte `json:"typ"`
+	N      int  `json:"n"`
+	Nested bool `json:"nested"` // placed between two siblings inside an array
+}
+
+func c17wideTree(w c17wide) *c17node {
+	agg := &c17node{Typ: w.Typ}
+	for i := 0; i < w.N; i++ {
+		switch i % 3 {
+		case 0:
+			agg.Kids = append(agg.Kids, &c17node{Typ: ':', Num: int64(i)})
+		case 1:
+			agg.Kids = append(agg.Kids, &c17node{Typ: '$', Str: []byte("v" + strconv.Itoa(i))})
+		default:
+			agg.Kids = append(agg.Kids, &c17node{Typ: '+', Str: []byte("s")})
+		}
+	}
+	if !w.Nested {
+		return agg
+	}
+	return &c17node{Typ: '*', Kids: []*c17node{{Typ: '$', Str: []byte("before")}, agg, {Typ: ':', Num: 7}}}
 }
 
 func c17desc(n *c17node) string {
@@ -172,22 +198,22 @@ func c17roundTrip(r *vrun.Run, c *c17case) {
 	})
 	if p != nil {
 		r.Outcome("panic")
-		r.Violate("round trip: panic in "+site, fmt.Sprintf("tree %s exp %d: panic %v", c17desc(c.Tree), c.Exp, p), *c)
+		r.Violate("round trip: panic in "+site, fmt.Sprintf("tree %s exp %d: panic %v", c17desc(c.Tree), c.Exp, p), c17payload(c))
 		return
 	}
 	if len(buf) != size {
 		r.Outcome("size mismatch")
-		r.Violate("CacheMarshal length differs from CacheSize ("+c17rootClass(c.Tree)+")", fmt.Sprintf("tree %s exp %d: len(CacheMarshal)=%d CacheSize=%d", c17desc(c.Tree), c.Exp, len(buf), size), *c)
+		r.Violate("CacheMarshal length differs from CacheSize ("+c17rootClass(c.Tree)+")", fmt.Sprintf("tree %s exp %d: len(CacheMarshal)=%d CacheSize=%d", c17desc(c.Tree), c.Exp, len(buf), size), c17payload(c))
 		return
 	}
 	if err != nil {
 		r.Outcome("unmarshal error")
-		r.Violate("CacheUnmarshalView rejects CacheMarshal output ("+c17rootClass(c.Tree)+")", fmt.Sprintf("tree %s exp %d: %v", c17desc(c.Tree), c.Exp, err), *c)
+		r.Violate("CacheUnmarshalView rejects CacheMarshal output ("+c17rootClass(c.Tree)+")", fmt.Sprintf("tree %s exp %d: %v", c17desc(c.Tree), c.Exp, err), c17payload(c))
 		return
 	}
 	if d := c17compare(c.Tree, &back, ""); d != "" {
 		r.Outcome("tree differs")
-		r.Violate("round trip changes the value ("+c17rootClass(c.Tree)+")", fmt.Sprintf("tree %s exp %d: %s", c17desc(c.Tree), c.Exp, d), *c)
+		r.Violate("round trip changes the value ("+c17rootClass(c.Tree)+")", fmt.Sprintf("tree %s exp %d: %s", c17desc(c.Tree), c.Exp, d), c17payload(c))
 		return
 	}
 	wantPXAT := c.Exp
@@ -196,10 +222,26 @@ func c17roundTrip(r *vrun.Run, c *c17case) {
 	}
 	if back.getExpireAt() != c.Exp || back.CachePXAT() != wantPXAT || !back.IsCacheHit() {
 		r.Outcome("expiry differs")
-		r.Violate("round trip changes the expiry", fmt.Sprintf("tree %s exp %d: getExpireAt=%d CachePXAT=%d IsCacheHit=%v", c17desc(c.Tree), c.Exp, back.getExpireAt(), back.CachePXAT(), back.IsCacheHit()), *c)
+		r.Violate("round trip changes the expiry", fmt.Sprintf("tree %s exp %d: getExpireAt=%d CachePXAT=%d IsCacheHit=%v", c17desc(c.Tree), c.Exp, back.getExpireAt(), back.CachePXAT(), back.IsCacheHit()), c17payload(c))
 		return
 	}
 	r.Outcome("round trip ok")
+}
+
+// c17payload is the replay payload of a case: a wide aggregate is stored as its description only.
+func c17payload(c *c17case) c17case {
+	pc := *c
+	if pc.Wide != nil {
+		pc.Tree = nil
+	}
+	return pc
+}
+
+// c17roundTripWide runs the round trip for a wide aggregate; the violation payload carries the description, not the tree.
+func c17roundTripWide(r *vrun.Run, c *c17case) {
+	tree := c.Tree
+	c17roundTrip(r, c)
+	_ = tree
 }
 
 // c17trunc checks one truncation; with measure=false the caller measures the
@@ -325,12 +367,19 @@ func (g *c17gen) forests(size int) [][]*c17node {
 	return out
 }
 
+// c17prealloc mirrors resp.go maxPrealloc (bytes preallocated on the word of a length header); a literal so that the
+// harness also builds against trees that rename or drop the constant.
+const c17prealloc = 1 << 16
+
 func TestVerif_C17(t *testing.T) {
 	vrun.Main(t, "C17", func(r *vrun.Run) {
 		if raw, ok := r.ReplayPayload(); ok {
 			var c c17case
 			if err := json.Unmarshal(raw, &c); err != nil {
 				panic(err)
+			}
+			if c.Wide != nil {
+				c.Tree = c17wideTree(*c.Wide)
 			}
 			switch c.Kind {
 			case "trunc":
@@ -349,7 +398,7 @@ func TestVerif_C17(t *testing.T) {
 		r.Bounds["corruption_max_nodes"] = corruptNodes
 		exps := []int64{0, 1, 1 << 48, 1<<55 - 1}
 		r.Bounds["expiries"] = exps
-		r.Rule = "every message tree with <= max_nodes nodes over leaves {blob string, simple string ('', a, 'a CRLF b\\x00'), verbatim, big number, double (stored as text), blob/simple error, int 0 1 -1 minInt64 maxInt64, bool, null} and aggregates {array, set, map (even size)} x expiry {0, 1, 2^48, 2^55-1}: CacheMarshal(nil) and CacheMarshal(into a preallocated buffer), length == CacheSize, CacheUnmarshalView gives the same tree, types, expiry and cache-hit mark; every strict prefix of each marshalled buffer (trees <= truncation_max_nodes, expiry 2^48) must give ErrCacheUnmarshal without panic and without allocating > 1 MiB; single byte corruptions of every length field for trees <= corruption_max_nodes nodes are probed (notes only). non-trivial = aggregate trees and strings with payload"
+		r.Rule = "every message tree with <= max_nodes nodes over leaves {blob string, simple string ('', a, 'a CRLF b\\x00'), verbatim, big number, double (stored as text), blob/simple error, int 0 1 -1 minInt64 maxInt64, bool, null} and aggregates {array, set, map (even size)} x expiry {0, 1, 2^48, 2^55-1}: CacheMarshal(nil) and CacheMarshal(into a preallocated buffer), length == CacheSize, CacheUnmarshalView gives the same tree, types, expiry and cache-hit mark; every strict prefix of each marshalled buffer (trees <= truncation_max_nodes, expiry 2^48) must give ErrCacheUnmarshal without panic and without allocating > 1 MiB; single byte corruptions of every length field for trees <= corruption_max_nodes nodes are probed (notes only). plus arrays, sets and maps with element counts around the decoder's preallocation bound (maxPrealloc/sizeof(message) -2..+2, twice that, 4096, 5000), alone and nested between siblings. non-trivial = aggregate trees and strings with payload"
 		r.Assume("push and attribute messages are not cacheable replies (the serializer does not keep their children) and are not generated")
 		r.Assume("corrupted (not truncated) buffers are outside the property statement; panics or large allocations on them are recorded as notes, not violations; corruptions that would make the real code allocate between 4 MiB and 2^48 bytes are skipped for the safety of the machine")
 		r.Assume("expiry is a 56 bit field (setExpireAt stores 7 bytes); values up to 2^55-1 are generated")
@@ -431,6 +480,27 @@ func TestVerif_C17(t *testing.T) {
 				}
 				if idx%256 == 0 && r.TimeUp() {
 					break outer
+				}
+			}
+		}
+		// wide aggregates: element counts around the decoder's preallocation bound (maxPrealloc / size of a message) and beyond
+		bound := c17prealloc / messageStructSize
+		var widths []int
+		for _, n := range []int{0, 1, 2, bound - 2, bound - 1, bound, bound + 1, bound + 2, 2*bound - 1, 2*bound + 2, 4096, 5000} {
+			widths = append(widths, n)
+		}
+		r.Bounds["wide_aggregate_sizes"] = widths
+		if r.Mine(0) {
+			for _, typ := range []byte{'*', '~', '%'} {
+				for _, n := range widths {
+					if typ == '%' && n%2 == 1 {
+						n++
+					}
+					for _, nested := range []bool{false, true} {
+						w := c17wide{Typ: typ, N: n, Nested: nested}
+						c := &c17case{Kind: "rt", Exp: 1 << 48, Wide: &w, Tree: c17wideTree(w)}
+						c17roundTripWide(r, c)
+					}
 				}
 			}
 		}
